@@ -17,7 +17,7 @@ COMPONENTS = dict(
     real=['btpu.agent.Agent (both ends)', 'btpu.messages', 'scapy (Ether, fields)', 'repo code at /repo/src working tree'],
     simulated=['GLib main contexts + clocks', 'AF_PACKET sockets on a shared Ethernet segment with drop / duplicate / reorder / delay (dsim.net)', 'D-Bus (dsim.dbusmod)'],
     stub=['psutil (interfaces of the simulated host)', 'macaddress (EUI48 value type)', 'portion (integer interval shim)', 'yaml (import only)'])
-PROBES = ('xfer.segmented', 'xfer.unsegmented', 'dg.dup', 'dg.delay', 'dg.drop', 'foreign.multi_message', 'foreign.hints', 'foreign.padding', 'bundles.delivered',
+PROBES = ('xfer.segmented', 'xfer.unsegmented', 'dg.dup', 'dg.delay', 'dg.drop', 'foreign.multi_message', 'foreign.hints', 'foreign.padding', 'foreign.two_transfers_in_one_frame', 'bundles.delivered',
           'timing.spread_over_timeout', 'frames.roundtrip_checked')
 ASSUMPTIONS = ['delivery is required only when every inter-segment gap is below the receive timeout the code documents ("reset each time a new segment is received")',
                'the decode / re-encode clause has no schedule dimension; it is checked on every frame that crosses the simulated wire']
@@ -55,7 +55,7 @@ def gen(ch, tier):
     foreign = []
     for ix in range(ch.weighted('nforeign', (2, 2, 1))):
         foreign.append(dict(parts=[ch.choice('part', ('bundle', 'seg', 'seg', 'padmsg')) for _ in range(1 + ch.pick('nparts', 3))], tag=200 + ix,
-                            blen=10 + ch.pick('fblen', 100), extra_hint=ch.choice('xh', (0, 1, 2, 3, 4)), pad=ch.coin('pad', 1, 2), t=1000 * ch.pick('ft', 2000)))
+                            blen=10 + ch.pick('fblen', 100), extra_hint=ch.choice('xh', (0, 1, 2, 3, 4)), pair=ch.coin('pair', 1, 3), pad=ch.coin('pad', 1, 2), t=1000 * ch.pick('ft', 2000)))
     return dict(scenario='btpu_pair', kind='btpu', profile=profile, net=net, mtu=mtu, sends=sends, foreign=foreign,
                 cfg={'*': dict(mtu_default=mtu, node_id='dtn://b/')})
 
@@ -119,6 +119,18 @@ def _drive(run, plan, har):
                 nmsg += 1
         if nseg == 2:
             foreign_seg.append(sbody)
+        if item.get('pair'):
+            # one frame that carries the first segments of two transfers nobody has seen yet, the rest in a second frame
+            (body_a, body_b) = (bc.body(item['tag'] + 70, item['blen'] + 3, first=0x9F), bc.body(item['tag'] + 71, item['blen'] + 5, first=0x9F))
+            (cut_a, cut_b) = (max(1, len(body_a) // 2), max(1, len(body_b) // 3))
+            first = (refbtpu.encode_segment(700 + item['tag'], 0, body_a[:cut_a], False, len(body_a))
+                     + refbtpu.encode_segment(800 + item['tag'], 0, body_b[:cut_b], False, len(body_b)))
+            second = (refbtpu.encode_segment(800 + item['tag'], 1, body_b[cut_b:], True, len(body_b))
+                      + refbtpu.encode_segment(700 + item['tag'], 1, body_a[cut_a:], True, len(body_a)))
+            for part in (first, second):
+                har.peer_send(refbtpu.frame(dgram_pair.MACS['U2'], dgram_pair.MACS['X'], part), 'U2')
+            foreign_seg.extend([body_a, body_b])
+            stats['foreign.two_transfers_in_one_frame'] = 1
         if not payload:
             return
         if nmsg > 1:
